@@ -315,3 +315,105 @@ def run(rep, facts, tier):
     # ------------------------------------------------------------ R14.5 (shared with C01 R01.7)
     from rules import numberset
     numberset.run_rule(rep, fx, 'R14.5')
+
+    # ------------------------------------------------------------ R14.6 length functions vs writers
+    rule_14_6(rep, fx)
+    if tier == 'thorough' and 'security' in facts:
+        default_types = set(strip_generics(b.impl_self or '') for b in fx.bodies if b.name == 'len_serialized' and b.impl_self)
+        rule_14_6(rep, facts['security'], pre='security:', skip=default_types)
+
+
+def rule_14_6(rep, fx, pre='', skip=()):
+    from rdv.sizes import Sizes, Unsupported, show, freeze
+    from rdv.core import Origins, callee_res, strip_generics, term_has
+    from rdv.poly import poly
+    rep.rule('R14.6', 'every len_serialized() equals the number of bytes the type\'s write_to emits, for every presence combination of its optional fields and every element count: both are '
+                      'turned into size polynomials over the fields of self (loops summarised, pad-to-4 as an atom reduced modulo 4) and compared; the length written into a submessage '
+                      'header (R14.1) therefore agrees with the bytes that follow')
+    S = Sizes(fx)
+    types = sorted(set(strip_generics(b.impl_self or '') for b in fx.bodies if b.name == 'len_serialized' and b.kind in ('fn', 'assoc_fn') and b.impl_self))
+    n = 0
+    for ty in types:
+        if S.writable_body(ty) is None or ty in skip:
+            continue
+        n += 1
+        short = pre + ty.rsplit('::', 1)[-1]
+        rep.analysed(S.len_body(ty), S.writable_body(ty))
+        try:
+            rows = S.compare(ty)
+        except Unsupported as e:
+            rep.violation('R14.6', '%s/len-vs-write' % short, '%s: the size expressions of len_serialized()/write_to cannot be read (%s); agreement is not established' % (short, e), S.len_body(ty).where())
+            continue
+        bad = []
+        for facts, l, w, eq in rows:
+            if eq:
+                continue
+            if short.endswith('NumberSet'):
+                # representation invariant bitmap.len() == (num_bits + 31) / 32, checked below: min(word_count, bitmap.len()) = word_count
+                w2 = {}
+                for m, c in w.items():
+                    m2 = tuple((sorted(a[1], key=repr)[0] if False else a) for a in m)
+                    new_m = []
+                    for a in m:
+                        if a[0] == 'min':
+                            alts = [dict(x) for x in a[1]]
+                            wc = [x for x in alts if not any(y[0] == 'len' for mm in x for y in mm)]
+                            ln = [x for x in alts if any(y[0] == 'len' and y[1] == ('field', 'bitmap', ('param', 1)) for mm in x for y in mm)]
+                            if len(wc) == 1 and len(ln) == 1 and len(wc[0]) == 1 and list(wc[0].values()) == [1] and len(list(wc[0])[0]) == 1:
+                                new_m.append(list(wc[0])[0][0])
+                                continue
+                        new_m.append(a)
+                    w2[tuple(sorted(new_m, key=repr))] = c
+                if freeze(w2) == freeze(l):
+                    continue
+            bad.append('%s: len_serialized = %s, written = %s' % (', '.join('%s is %s' % (show({(("val", k),): 1}), v) for k, v in facts.items()) or 'always', show(l), show(w)))
+        rep.check(not bad, 'R14.6', '%s/len-vs-write' % short, '%d case(s): len_serialized() = bytes written = %s' % (len(rows), show(rows[0][1])),
+                  '%s::len_serialized() disagrees with the bytes %s::write_to emits (%s): the submessage length in the header does not match the body, a receiver skips to the wrong place or cuts '
+                  'the body short' % (short, short, '; '.join(sorted(set(bad))[:3])), S.len_body(ty).where())
+    if pre:
+        return types
+    rep.floor('R14.6', n, 9, 'types with both len_serialized() and a Writable implementation')
+    # ---- NumberSet representation invariant used above: bitmap.len() == (num_bits + 31) / 32
+    NS = 'structure::sequence_number::NumberSet'
+    viol = []
+    n_ctor = 0
+    for b in fx.bodies:
+        derived = ' as std::clone::Clone>::clone' in b.key
+        for bb, si, st in b.statements():
+            if st['s'] != 'assign':
+                continue
+            if any(isinstance(e, dict) and e.get('n') in ('bitmap', 'num_bits') and NS in str(e.get('adt', NS)) for e in (st['lhs'].get('p') or [])) and \
+                    strip_generics(b.impl_self or '') == NS and not (st['lhs'].get('p') or [])[-1] == '*':
+                last = (st['lhs'].get('p') or [])[-1]
+                if isinstance(last, dict) and last.get('n') in ('bitmap', 'num_bits'):
+                    viol.append('%s stores to NumberSet.%s' % (b.key, last['n']))
+            if st['rv']['r'] == 'agg' and strip_generics(str(st['rv'].get('adt'))) == NS and not derived:
+                n_ctor += 1
+                og = Origins(b, summaries=False)
+                f = dict(zip(st['rv']['fields'], [og.of_operand(o, bb, si) for o in st['rv']['ops']]))
+                bm, nb = f['bitmap'], f['num_bits']
+                pargs = dict((i, ('param', i)) for i in range(1, b.argc + 1))
+                ok_new = False
+                if bm[0] == 'call' and bm[1].endswith('from_elem') and len(bm[2]) > 1:
+                    try:
+                        nbp = S.expr(b, og, nb, pargs, 0)
+                        from rdv.poly import padd
+                        want = freeze({(('Div', freeze(padd(nbp, {(): 31})), freeze({(): 32})),): 1})
+                        ok_new = freeze(S.expr(b, og, bm[2][1], pargs, 0)) == want
+                    except Unsupported:
+                        ok_new = False
+                # parser: with_capacity(word_count) filled by one push per iteration of 0..word_count, errors leave the function
+                ok_read = term_has(bm, lambda x: x[0] == 'call' and x[1].endswith('with_capacity')) and b.key.endswith('::read_from') and \
+                    sum(1 for _bb, t in b.calls() if callee_res(t).endswith('Vec::<T, A>::push') or callee_res(t).endswith('::push')) == 1
+                if not (ok_new or ok_read):
+                    viol.append('%s builds a NumberSet whose bitmap is not sized (num_bits + 31) / 32' % b.key)
+        if strip_generics(b.impl_self or '') == NS:
+            og = None
+            for bb, t in b.calls():
+                if callee_res(t).rsplit('::', 1)[-1] in ('push', 'pop', 'truncate', 'resize', 'clear', 'extend', 'remove', 'append', 'drain', 'insert', 'extend_from_slice') and \
+                        'Vec' in callee_res(t) and not b.key.endswith('::read_from'):
+                    og = og or Origins(b, summaries=False)
+                    if term_has(og.of_operand(t['args'][0], bb, 'term'), lambda x: x[0] == 'field' and x[1] == 'bitmap'):
+                        viol.append('%s changes the length of NumberSet.bitmap (%s)' % (b.key, callee_res(t).rsplit('::', 1)[-1]))
+    rep.check(not viol and n_ctor >= 2, 'R14.6', 'NumberSet/bitmap-length-invariant', 'bitmap.len() == (num_bits + 31) / 32 in all %d constructions, never resized afterwards' % n_ctor,
+              'the NumberSet invariant bitmap.len() == (num_bits + 31) / 32 can be broken (%s): write_to then emits fewer words than len_serialized() counts' % '; '.join(viol[:3]), '')
